@@ -59,11 +59,16 @@ Definition OPTIONAL_REVERT_GAS : N := 100000.     (* depositHandlers/erc20.go *)
 Definition BTC_SCALE : N := 10000000000.          (* 10^10 *)
 
 (* ================================================================================================================
-   Source side *)
+   Source side.  Every handler = a body that turns the bytes into (payload, gasLimit metadata), wrapped
+   into message.NewMessage(sourceID, destID, TransferMessageData{nonce, resourceID, ...}). *)
 
-Definition erc20_decode (d : deposit) : res message :=
-  let cd := d_data d in
-  let hr := d_hr d in
+Definition wrap (d : deposit) (t : ttype) (r : res (list pitem * option N)) : res message :=
+  match r with
+  | Ok (p, g) => Ok (mkMsg (d_src d) (d_dst d) (d_nonce d) (d_rid d) t p g)
+  | Err => Err | Panic => Panic | Unspec => Unspec
+  end.
+
+Definition erc20_body (cd hr : bytes) : res (list pitem * option N) :=
   if (len cd <? 84)%Z then Err else
   amount <- (if (0 <? len hr)%Z then sl 0 32 hr else sl 0 32 cd) ;;
   w <- sl 32 64 cd ;;
@@ -77,13 +82,13 @@ Definition erc20_decode (d : deposit) : res message :=
     (* copy(calldata[e:e2], LeftPadBytes(maxFee.Bytes(), 32)) copies min(32, len src) = 32 bytes *)
     rest <- sl_from e cd ;;
     let tail := firstn 32 (left_pad 32 (be_bytes maxfee)) ++ skipn 32 rest in
-    Ok (mkMsg (d_src d) (d_dst d) (d_nonce d) (d_rid d) Fungible
-              [PB amount; PB recipient; PB tail] (Some (uint64_of_N maxfee)))
+    Ok ([PB amount; PB recipient; PB tail], Some (uint64_of_N maxfee))
   else
-    Ok (mkMsg (d_src d) (d_dst d) (d_nonce d) (d_rid d) Fungible [PB amount; PB recipient] None).
+    Ok ([PB amount; PB recipient], None).
 
-Definition erc721_decode (d : deposit) : res message :=
-  let cd := d_data d in
+Definition erc20_decode (d : deposit) : res message := wrap d Fungible (erc20_body (d_data d) (d_hr d)).
+
+Definition erc721_body (cd : bytes) : res (list pitem * option N) :=
   if (len cd <? 64)%Z then Err else
   tokenId <- sl 0 32 cd ;;
   w <- sl 32 64 cd ;;
@@ -97,11 +102,11 @@ Definition erc721_decode (d : deposit) : res message :=
                  let ms := wrap64s (wrap64s (64 + rl) + 32) in
                  sl ms (wrap64s (ms + int64_of_N ml)) cd
                else Ok []) ;;
-  Ok (mkMsg (d_src d) (d_dst d) (d_nonce d) (d_rid d) NonFungible
-            [PB tokenId; PB recipient; PB metadata] None).
+  Ok ([PB tokenId; PB recipient; PB metadata], None).
 
-Definition generic_decode (d : deposit) : res message :=
-  let cd := d_data d in
+Definition erc721_decode (d : deposit) : res message := wrap d NonFungible (erc721_body (d_data d)).
+
+Definition generic_body (cd : bytes) : res (list pitem * option N) :=
   if (len cd <? 76)%Z then Err else
   maxFee <- sl 0 32 cd ;;
   fslw <- sl 32 34 cd ;;
@@ -114,8 +119,10 @@ Definition generic_decode (d : deposit) : res message :=
   let dEnd := wrap64s (wrap64s (caEnd + 1) + int64_of_N (be_to_N dlw)) in
   dp <- sl (wrap64s (caEnd + 1)) dEnd cd ;;
   ex <- sl_from dEnd cd ;;
-  Ok (mkMsg (d_src d) (d_dst d) (d_nonce d) (d_rid d) PermissionlessGeneric
-            [PB fs; PB ca; PB maxFee; PB dp; PB ex] (Some (uint64_of_N (be_to_N maxFee)))).
+  Ok ([PB fs; PB ca; PB maxFee; PB dp; PB ex], Some (uint64_of_N (be_to_N maxFee))).
+
+Definition generic_decode (d : deposit) : res message :=
+  wrap d PermissionlessGeneric (generic_body (d_data d)).
 
 (* types.IntBytesToBigInt (signed big-endian two's complement) followed by big.Int.Int64
    (low 64 bits of the magnitude, negated for a negative value) *)
@@ -127,14 +134,15 @@ Definition sub_len_int64 (w : bytes) : Z :=
       else wrap64s (- int64_of_N (256 ^ N.of_nat (length w) - be_to_N w)%N)
   end.
 
-Definition sub_decode (d : deposit) : res message :=
-  let cd := d_data d in
+Definition sub_body (cd : bytes) : res (list pitem * option N) :=
   if (len cd <? 84)%Z then Err else
   amount <- sl 0 32 cd ;;
   w <- sl 32 64 cd ;;
   let rl := sub_len_int64 w in
   recipient <- sl 64 (wrap64s (64 + rl)) cd ;;
-  Ok (mkMsg (d_src d) (d_dst d) (d_nonce d) (d_rid d) Fungible [PB amount; PB recipient] None).
+  Ok ([PB amount; PB recipient], None).
+
+Definition sub_decode (d : deposit) : res message := wrap d Fungible (sub_body (d_data d)).
 
 (* ---- Bitcoin ----------------------------------------------------------------------------------------------------- *)
 Definition ch_us : byte := "_"%byte.
@@ -187,17 +195,21 @@ Definition parse_uint8 (s : bytes) : option N :=
   | _ => if forallb is_digit s && (dec_value s <=? 255)%N then Some (dec_value s) else None
   end.
 
-Definition btc_decode (d : deposit) : res message :=
-  match split_us (d_data d) [] with
+Definition btc_body (data : bytes) (amount : N) : res (N * list pitem) :=
+  match split_us data [] with
   | p0 :: p1 :: _ =>
       let addr := hex_to_address p0 in
       match parse_uint8 p1 with
       | None => Err
-      | Some dst =>
-          Ok (mkMsg (d_src d) dst (d_nonce d) (d_rid d) Fungible
-                    [PB (be_bytes (d_amount d * BTC_SCALE)); PB addr] None)
+      | Some dst => Ok (dst, [PB (be_bytes (amount * BTC_SCALE)); PB addr])
       end
   | _ => Panic                                   (* parsedData[1]: index out of range *)
+  end.
+
+Definition btc_decode (d : deposit) : res message :=
+  match btc_body (d_data d) (d_amount d) with
+  | Ok (dst, p) => Ok (mkMsg (d_src d) dst (d_nonce d) (d_rid d) Fungible p None)
+  | Err => Err | Panic => Panic | Unspec => Unspec
   end.
 
 (* ---- ERC1155: go-ethereum v1.13.4 accounts/abi, type (uint256[],uint256[],bytes,bytes) ---------------------------- *)
@@ -235,13 +247,14 @@ Definition abi_bytes (index : Z) (out : bytes) : res bytes :=
   let '(begin, size) := bl in
   sl begin (begin + size) out.
 
-Definition erc1155_decode (d : deposit) : res message :=
-  let cd := d_data d in
+Definition erc1155_body (cd : bytes) : res (list pitem * option N) :=
   ids <- abi_uint_array 0 cd ;;
   ams <- abi_uint_array 32 cd ;;
   rc <- abi_bytes 64 cd ;;
   td <- abi_bytes 96 cd ;;
-  Ok (mkMsg (d_src d) (d_dst d) (d_nonce d) (d_rid d) SemiFungible [PI ids; PI ams; PB rc; PB td] None).
+  Ok ([PI ids; PI ams; PB rc; PB td], None).
+
+Definition erc1155_decode (d : deposit) : res message := wrap d SemiFungible (erc1155_body (d_data d)).
 
 (* Arguments.Pack for the same type *)
 Definition pad_right32 (b : bytes) : bytes :=
